@@ -481,6 +481,18 @@ def _get_Hamiltonian_from_couplings(model, sparse: bool, undo_sort_charge: bool)
         eye_0 = np.eye(1)  # identity on zero sites. starting point for doing kron.
 
     for s, terms in zip(term_list.strength, term_list.terms):
+        if any(terms[k][1] > terms[k + 1][1] for k in range(len(terms) - 1)):
+            # e.g. centered exponentially decaying terms list the central operator first: order by site,
+            # with a sign for each exchange of two fermionic operators
+            terms = list(terms)
+            for n_pass in range(len(terms)):
+                for k in range(len(terms) - 1 - n_pass):
+                    if terms[k][1] > terms[k + 1][1]:
+                        if _anticommutes_with_JW(sites[terms[k][1]], terms[k][0]) and _anticommutes_with_JW(
+                            sites[terms[k + 1][1]], terms[k + 1][0]
+                        ):
+                            s = -s
+                        terms[k], terms[k + 1] = terms[k + 1], terms[k]
         last_site = -1
         t = eye_0
         # the term lists don't contain the operator strings *between* the sites of a term:
